@@ -175,9 +175,16 @@ def build_df(case) -> pd.DataFrame:
     return df
 
 
+def eff_nm(case) -> dict:
+    """the key map as the importer reads it: entries whose value is None / "None" are ignored"""
+    return {k: v for k, v in case["nm"].items() if v is not None and v != "None"}
+
+
 def _nm_cols(nm) -> list[str]:
     out = []
     for v in nm.values():
+        if v is None or v == "None":
+            continue
         out += v if isinstance(v, list) else [v]
     return out
 
@@ -278,7 +285,10 @@ def run_real(case, timeout: float = 30.0) -> dict[str, Any]:
             if case["kind"] == "df":
                 df = build_df(case)
                 src = source_of_df(df, nm)
-                tracks = ft["tracks_from_df"](df.copy(), node_name_map=nm)
+                if case.get("deprecated_param"):
+                    tracks = ft["tracks_from_df"](df.copy(), name_map=nm)   # deprecated spelling, still supported
+                else:
+                    tracks = ft["tracks_from_df"](df.copy(), node_name_map=nm)
             elif case["kind"] == "csv":
                 tmp = tempfile.mkdtemp(prefix="ft_im_", dir="/tmp")
                 path = Path(tmp) / "table.csv"
@@ -371,7 +381,7 @@ def err_kind(real) -> str:
 def classify(case, src) -> dict:
     """what the property demands for this source: {'expect': 'refuse', 'why': […]} or
     {'expect': 'import', nodes, edges, attrs} or {'expect': 'none'} (outside the claim)"""
-    nm = case["nm"]
+    nm = eff_nm(case)
     csvlike = src["kind"] == "table"
     why = []
     required = ["time", "id", "parent_id"] if csvlike else ["time"]
@@ -461,7 +471,7 @@ def _idkind(src) -> str:
 
 
 def _reject_tag(case, src, real) -> str:
-    nm = case["nm"]
+    nm = eff_nm(case)
     if real["exc"] != "ValueError":
         return real["exc"]
     if src["kind"] == "table":
@@ -537,6 +547,8 @@ def oracle(case, real) -> list[tuple[str, str]]:
     # edge properties (GEFF stores): every mapped property on every edge, under the standard key
     if case.get("enm") and "eattrs" in real:
         for key, pname in case["enm"].items():
+            if pname is None or pname == "None":
+                continue
             vals = case["eprops"][pname]["values"]
             for (u, v), sv in zip(case["edges"], vals):
                 got = real["eattrs"].get((int(u), int(v)))
@@ -578,7 +590,7 @@ def _hx_cells(cells: dict, order: list[str]) -> list[str]:
 def model_line(case, src, mode: str = "fixed") -> str | None:
     """None when the case is outside the model's input language"""
     ft = _ft()
-    nm = case["nm"]
+    nm = eff_nm(case)
     if "track_id" in nm or "lineage_id" in nm:
         # the model carries these columns like any other; the real code carries them only when
         # they are valid (validity check = geff.validate, opaque) — generators produce valid ids
@@ -630,7 +642,7 @@ def canon_real(case, real) -> str:
         return "hang"
     if real["status"] == "err":
         return err_kind(real)
-    nm = case["nm"]
+    nm = eff_nm(case)
     toks = ["ok", "nodes", str(len(real["nodes"]))]
     for nid in sorted(real["nodes"], key=lambda x: (isinstance(x, str), x)):
         a = {k: v for k, v in real["nodes"][nid].items() if not (k in ("track_id", "lineage_id") and k not in nm)}
@@ -932,6 +944,8 @@ def gen_table(rng: random.Random, kind: str, intensify: bool = False) -> dict:
             case["index"] = list(range(o, o + n))
         else:
             case["index"] = [rng.randrange(max(1, n // 2)) for _ in range(n)]
+    if kind == "df" and rng.random() < 0.1:
+        case["deprecated_param"] = True
     case["_tags"] = {"ids": id_kind, "enc": enc, "renamed_ids": renamed_ids, "nd": nd, "n": n,
                      "index": "default" if "index" not in case else "custom",
                      "links": sum(1 for p in parent if p is not None),
@@ -1123,6 +1137,13 @@ def gen_geff(rng: random.Random, intensify: bool = False) -> dict:
             k0 = next(iter(enm))
             enm["copy_of_" + k0] = enm[k0]
         case["eprops"], case["enm"] = eprops, enm
+    if rng.random() < 0.2:
+        # entries whose value is None / "None" ("this standard key is not in the source"): ignored
+        for k_ in rng.sample(["lineage_id", "track_id", "seg_id", "circularity"], rng.randint(1, 2)):
+            if k_ not in case["nm"]:
+                case["nm"][k_] = rng.choice([None, "None"])
+        if case.get("enm") is not None and rng.random() < 0.5:
+            case["enm"]["iou_unused"] = rng.choice([None, "None"])
     case["_tags"] = {"ids": "int", "enc": "geff", "renamed_ids": False, "nd": nd, "n": n,
                      "edge_props": len(case.get("eprops", {})),
                      "links": len(edges), "list_keys": sum(1 for v in nm.values() if isinstance(v, list)) - (posmode == "list"),
@@ -1133,6 +1154,7 @@ def gen_geff(rng: random.Random, intensify: bool = False) -> dict:
 def inject_geff(rng: random.Random, case: dict) -> dict | None:
     case.pop("eprops", None)
     case.pop("enm", None)
+    case["nm"] = eff_nm(case)
     nm = case["nm"]
     ids = case["node_ids"]
     n = len(ids)
